@@ -800,6 +800,13 @@ func (c *compiler) compileVarBinding(expr *ast.Binding) {
 
 func (c *compiler) emitLexicalAssign(name unistring.String, offset int, init compiledExpr) {
 	b := c.scope.boundNames[name]
+	if b == nil {
+		// statements that follow a break/continue are compiled in dummy mode under a scratch scope:
+		// the binding of the declaration lives in the enclosing block scope
+		for s := c.scope.outer; s != nil && b == nil; s = s.outer {
+			b = s.boundNames[name]
+		}
+	}
 	c.assert(b != nil, offset, "Lexical declaration for an unbound name")
 	if init != nil {
 		c.emitNamedOrConst(init, name)
